@@ -23,6 +23,8 @@ WWR = "vaporetto::dict_model::WordWeightRecord"
 
 def run(chk):
     w = C.world_for(chk)
+    from . import ctors as _acc
+    _acc.accessors(chk, w, only=["vaporetto::dict_model::"])
     from . import c01_absent as _abs
     _abs.run(chk, w)
     for rid, txt in (("R19.1", "replace_dictionary/dictionary touch exactly the dictionary field"), ("R19.2", "records only through the checking constructor"),
